@@ -2,7 +2,7 @@
 //! as Visual Studio Code.
 
 use crossbeam_channel::{Receiver, Sender};
-use log::{debug, trace};
+use log::{debug, error, trace};
 use lsp_server::{Connection, ExtractError, Message, RequestId};
 use lsp_types::{
     notification::{self, Notification, PublishDiagnostics},
@@ -301,7 +301,12 @@ impl<'a> LspServer<'a> {
             .extract(T::METHOD)
             .map_err(|e| match e {
                 ExtractError::MethodMismatch(n) => n,
-                err @ ExtractError::JsonError { .. } => panic!("Invalid notification: {err:?}"),
+                ExtractError::JsonError { method, error } => {
+                    // A notification cannot be answered, so the only thing to do with one that
+                    // is not valid is to skip it.
+                    error!("Invalid parameters for notification {method}: {error}");
+                    notification.clone()
+                }
             })
     }
 
